@@ -764,6 +764,9 @@ func (x *Exec) calleeName(c *ssa.CallCommon) string {
 		return c.Method.Name()
 	}
 	if f := c.StaticCallee(); f != nil {
+		if f.Origin() != nil {
+			return f.Origin().Name() // an instance of a generic function goes by the generic function's name
+		}
 		n := f.Name()
 		return n
 	}
